@@ -152,6 +152,28 @@ class Rec:
         assert self.stack.pop() == cid
         return ("suspended", v)
 
+    def drop(self, cid, holder):
+        """drop the last reference to a suspended generator/coroutine inside a window: the interpreter closes it
+        (GeneratorExit at its suspension point) when it is deallocated"""
+        import gc
+        c = self.calls[cid]
+        if c["state"] != "suspended":
+            holder.clear()
+            if c["state"] == "open":
+                c["state"] = "never-started"
+            return
+        self.stack.append(cid)
+        try:
+            holder.clear()
+            gc.collect()
+        finally:
+            c["outcome"] = "raise"
+            c["state"] = "done"
+            c["exc"] = "GeneratorExit"
+            c["killed_at_yield"] = True
+            assert self.stack.pop() == cid
+            self.completed.append(cid)
+
     def note_locals(self, cid, names_to_values):
         """types of the parameters' current bindings at a resumption point (for the sampling finding matcher)"""
         self.calls[cid]["locals_at_resume"].append({n: self._t(v) for n, v in names_to_values.items()})
